@@ -1,9 +1,9 @@
 (** Extraction of the executable C02/C03 models and of the specification functions used as oracle / generator
     (render, events, wf_ldoc).  Only ExtrOcamlBasic: N/positive/nat stay the extracted inductive types. *)
 From Coq Require Import Extraction ExtrOcamlBasic.
-From XV Require Import C02.Model02 C02.Spec02.
+From XV Require Import C02.Model02 C02.Spec02 C02.Model02e.
 Extraction Language OCaml.
 Extraction "../ocaml/C02/gen_c02.ml"
-  xscan scan_doc eol_norm code_num all_ecodes
+  xscan scan_doc escan_doc eol_norm code_num all_ecodes
   render render1 events wf_ldoc eol_choices_ok eol_expand u16 enc16
   is_xmlchar is_firstname is_namechar is_ws name_ok.
